@@ -19,7 +19,8 @@ RULE = (
     "2..3 endpoints, each a real thread with a script projected from a global message plan (<=4 sends per endpoint; "
     "connect, send, send_silent, send_structured, blocking recv (without, with a generous and with an expiring time limit on the virtual clock; after a timeout the receive is repeated), non-blocking recv, recv_silent, disconnect; "
     "message texts include the empty string and repeated texts; plain and callback delivery; 1..2 socket ids; in a third of the "
-    "scenarios one endpoint closes a socket part-way and opens it again, possibly with the other delivery mode) plus a schedule = list of small ints choosing the next thread at every statement of the hub; Hypothesis draws both; "
+    "scenarios one endpoint closes a socket part-way and opens it again, possibly with the other delivery mode; an eighth of the scenarios use "
+    "broadcast channels: every endpoint broadcasts 0..2 messages, receives what the others broadcast and may then drop its channel) plus a schedule = list of small ints choosing the next thread at every statement of the hub; Hypothesis draws both; "
     "both tiers enumerate every single-preemption schedule of five fixed scripts; thorough also enumerates all schedules with <=3 preemptions for small two-endpoint scripts.  Non-trivial = >=1 "
     "preemption inside a hub method and >=2 messages sent; distinct by (scripts, schedule)"
 )
@@ -48,6 +49,15 @@ def st_schedule(draw):
 
 @st.composite
 def st_scenario(draw):
+    if draw(st.integers(0, 7)) == 0:
+        # broadcast channels (one socket per remote): every endpoint broadcasts 0..2 messages, then receives everything the
+        # others broadcast, then possibly drops its channel
+        n_end = draw(st.sampled_from([2, 3, 3]))
+        names = ["a", "b", "c"][:n_end]
+        sends = {n: [draw(st.sampled_from([f"{n}{k}", f"{n}{k}", "", "dup"])) for k in range(draw(st.integers(0, 2)))] for n in names}
+        if not any(sends.values()):
+            sends[names[0]] = ["a0"]
+        return {"kind": "broadcast", "names": names, "sends": sends, "close": {n: draw(st.booleans()) for n in names}, "schedule": draw(st_schedule())}
     special = draw(st.integers(0, 9)) <= 1
     if special:
         # one side opens and closes before the other arrives / notices
@@ -185,7 +195,34 @@ def run(scn) -> Dict[str, Any]:
         def recv_callback(self, msg):
             super().recv_callback(msg)
             log.append((self.app_name, "cb-recv", self.remote_app_name, self.id, _payload(msg)))
-    if scn["kind"] == "open-close":
+    channels: Dict[str, Any] = {}
+    if scn["kind"] == "broadcast":
+        from netqasm.sdk.classical_communication.thread_socket.broadcast_channel import ThreadBroadcastChannel
+
+        class PollingThreadSocket(ThreadSocket):
+            # the broadcast receive loop polls its sockets without sleeping: make an empty non-blocking receive a schedule
+            # point (as a sleep in a polling loop is), nothing else changes
+            def recv(self, block=True, timeout=None, maxsize=None):
+                import threading
+
+                try:
+                    m = super().recv(block=block, timeout=timeout, maxsize=maxsize)
+                except RuntimeError:
+                    if not block:
+                        sch.sleep(0.0)
+                    raise
+                sch.idle_sleeps[threading.current_thread().name] = 0  # progress: the round of polls starts over
+                return m
+
+        class Channel(ThreadBroadcastChannel):
+            _socket_class = PollingThreadSocket
+
+        scripts = {}
+        for n in scn["names"]:
+            others = [o for o in scn["names"] if o != n]
+            expect = sum(len(scn["sends"][o]) for o in others)
+            scripts[n] = [["bc_open", others, 0]] + [["bc_send", m, 0] for m in scn["sends"][n]] + [["bc_recv", None, 0]] * expect + ([["bc_close", None, 0]] if scn["close"].get(n) else [])
+    elif scn["kind"] == "open-close":
         scripts = {"a": [["connect", "b", 0, "plain"], ["disconnect", "b", 0]], "b": [["connect", "a", 0, "plain"], ["send", "a", 0, "late"]]}
     elif scn["kind"] == "late-open-close":
         # a starts first and polls; b arrives, sends and closes (possibly all inside one of a's poll sleeps)
@@ -199,6 +236,24 @@ def run(scn) -> Dict[str, Any]:
                 k = op[0]
                 key = (name, op[1], op[2])
                 try:
+                    if k == "bc_open":
+                        channels[name] = Channel(name, list(op[1]))
+                        log.append((name, "bc-open"))
+                        continue
+                    if k == "bc_send":
+                        channels[name].send(op[1])
+                        log.append((name, "bc-sent", op[1]))
+                        continue
+                    if k == "bc_recv":
+                        src, m = channels[name].recv()
+                        log.append((name, "bc-recv", src, m))
+                        continue
+                    if k == "bc_close":
+                        for so in channels[name]._sockets.values():
+                            old_socks.append(so)
+                            so.__del__()
+                        log.append((name, "bc-closed"))
+                        continue
                     if k == "connect":
                         cls = LoggingStorageSocket if op[3] == "cb" else ThreadSocket
                         if key in socks:
@@ -254,7 +309,10 @@ def run(scn) -> Dict[str, Any]:
                 except Stuck:
                     log.append((name, "stuck", k, op[1], op[2]))
                     return
-                except ConnectionError:
+                except ConnectionError as e:
+                    if k in ("recv", "recv_nb", "bc_recv"):
+                        # only sending needs a connected peer; a receive reports emptiness (non-blocking) or waits
+                        raise Failure(f"receive-raises:ConnectionError:{k}", case, f"endpoint {name}: {k} raised ConnectionError: {str(e)[:120]}")
                     log.append((name, "conn_error", k, op[1], op[2]))
                 except json.JSONDecodeError:
                     log.append((name, "recv-garbled", op[1], op[2]))
@@ -270,7 +328,30 @@ def run(scn) -> Dict[str, Any]:
         if sch.inconclusive:
             return info
         for name, e in sch.thread_errors.items():
+            if isinstance(e, Failure):
+                raise e
             raise Failure(f"thread-raises:{type(e).__name__}", case, f"endpoint {name} raised {type(e).__name__}: {(str(e).splitlines() or [''])[0][:200]}")
+        if scn["kind"] == "broadcast":
+            n_sent = 0
+            for src in scn["names"]:
+                sent_ok = [x[2] for x in log if x[0] == src and x[1] == "bc-sent"]
+                n_sent += len(sent_ok)
+                for dst in scn["names"]:
+                    if dst == src:
+                        continue
+                    got_b = [x[3] for x in log if x[0] == dst and x[1] == "bc-recv" and x[2] == src]
+                    queued = list(hub._messages.get((dst, src, 0), []))
+                    if got_b + queued != sent_ok:
+                        what = "lost" if len(got_b) + len(queued) < len(sent_ok) else ("duplicated" if len(got_b) + len(queued) > len(sent_ok) else "reordered")
+                        stuck_b = [x for x in log if x[0] == dst and x[1] == "stuck"]
+                        raise Failure(f"broadcast:{what}", case, f"{src} broadcast {sent_ok}; {dst} received {got_b} from it, still queued {queued}" + ("; its receive never returns" if stuck_b else ""))
+            for x in log:
+                if x[1] == "stuck" and x[2] == "bc_recv":
+                    raise Failure("broadcast:lost", case, f"endpoint {x[0]} waits forever for a broadcast although everything was sent; log {log}")
+                if x[1] == "stuck" and x[2] == "bc_open":
+                    raise Failure("connect-never-returns", case, f"endpoint {x[0]} never found its peers; log {log}")
+            info["sent"] = n_sent
+            return info
         if scn["kind"] == "open-close":
             ev = [x for x in log if x[0] == "b"]
             if not any(x[1] == "connected" for x in ev):
@@ -365,6 +446,9 @@ def run(scn) -> Dict[str, Any]:
         info["timeouts"] = sum(1 for x in log if x[1] == "timeout")
         return info
     finally:
+        for ch_ in channels.values():
+            old_socks.extend(ch_._sockets.values())
+        channels.clear()
         for s in list(socks.values()) + old_socks:
             try:
                 hub.disconnect(s)
